@@ -217,4 +217,178 @@ theorem f10_map_from_struct_extra_member :
       (filter (.tmap (.base .int)) (.obj [(ka, .num (.int 1)), (kx, .str kx)])).1 = false := by
   decide
 
+/-! ### 6. the side hypotheses, discharged or shown exact -/
+
+/-- `noHole` is EXACT: for well-formed assignable types, filtering every clean
+`s`-value to `d` yields a clean `d`-value if and only if `noHole d s`.  So
+`filter_valid_of_assignable_partial` cannot be improved, and whenever
+`noHole d s` fails a concrete counterexample value exists (for the two
+base shapes: the witnesses `f9_…`, `f10_…`). -/
+theorem filter_valid_of_assignable_iff (d s : Ty) (hd : d.wf = true) (hs : s.wf = true)
+    (ha : assignable d s = true) :
+    (∀ v, valid s v = true → valid d (filter d v).1 = true) ↔ noHole d s = true := by
+  constructor
+  · intro h
+    cases hn : noHole d s with
+    | true => rfl
+    | false =>
+      obtain ⟨v, hv1, hv2⟩ := noHole_exact d hd s hs ha hn
+      exact absurd (shape_of_valid _ _ (h v (valid_of_shape _ _ hv1))) hv2
+  · intro hn v hv
+    exact filter_valid_of_assignable_partial d s v hd hv ha hn
+
+/-- `noHole` is a decidable syntactic predicate; these equations characterise it. -/
+theorem noHole_scalar_dst (b : Base) (n : Bytes) (s : Ty) :
+    noHole (.base b) s = true ∧ noHole (.user n) s = true := by simp [noHole]
+
+theorem noHole_array_iff (d s : Ty) : noHole (.arr d) (.arr s) = noHole d s := by simp [noHole]
+
+theorem noHole_map_iff (d s : Ty) :
+    noHole (.tmap d) (.tmap s) = true ↔ (isDirMap d = true → isDirMap s = true) ∧ noHole d s = true := by
+  cases hd : isDirMap d <;> simp [noHole, hd]
+
+theorem noHole_map_from_struct (d : Ty) (n : Bytes) (fs : Fields) :
+    noHole (.tmap d) (.struct n fs) = false := by simp [noHole]
+
+theorem noHole_struct_iff (n n' : Bytes) (fs fs' : Fields) :
+    noHole (.struct n fs) (.struct n' fs') = true ↔
+      ∀ k t t', (k, t) ∈ fs.toList → fs'.get k = some t' → noHole t t' = true := by
+  simp only [noHole, noHoleFields_iff]
+
+/-- every well-formed type is hole-free with respect to itself -/
+theorem noHole_refl (t : Ty) (hwf : t.wf = true) : noHole t t = true :=
+  Martian.Types.noHole_refl t hwf
+
+/-- non-vacuity on nested types: `struct D(N[] a, map<N> b)` from
+`struct S(map<N> b, N[] a, int x)` with `N` the nested struct above; `map<txt[]>`
+from `map<file[]>`…  all satisfy the hypotheses of the theorems of §5–§7. -/
+example :
+    let d : Ty := .struct [0x44] (.cons ka (.arr tN) (.cons kb (.tmap tN) .nil))
+    let s : Ty := .struct [0x53] (.cons kb (.tmap tN) (.cons ka (.arr tN) (.cons kx (.base .int) .nil)))
+    d.wf = true ∧ s.wf = true ∧ assignable d s = true ∧ noHole d s = true ∧ pureNarrow d s = true := by
+  decide
+
+example :
+    assignable (.tmap (.arr (.user [0x74]))) (.tmap (.arr (.base .file))) = true ∧
+    noHole (.tmap (.arr (.user [0x74]))) (.tmap (.arr (.base .file))) = true ∧
+    noHole (.arr (.tmap (.base .float))) (.arr (.tmap (.base .int))) = true := by decide
+
+/-- Assignability preserves the `(ArrayDim, MapDim)` shape except for the two
+map coercions (`map ← map<T>`, `map<T> ← struct`, below equal array depth). -/
+theorem dims_eq_of_assignable (d s : Ty) (ha : assignable d s = true)
+    (hm : mapCoercion d s = false) : dims d = dims s :=
+  Martian.Types.dims_eq_of_assignable d s ha hm
+
+/-- structs: the component-wise equivalence at FULL strength whenever no member
+pair is one of the two map coercions – this discharges the `dims` conjunct of
+`assignable_struct_iff_partial`. -/
+theorem assignable_struct_iff_of_no_mapCoercion (n n' : Bytes) (fs fs' : Fields)
+    (hm : ∀ k t t', (k, t) ∈ fs.toList → fs'.get k = some t' → mapCoercion t t' = false) :
+    assignable (.struct n fs) (.struct n' fs') = true ↔
+      ∀ k t, (k, t) ∈ fs.toList → ∃ t', fs'.get k = some t' ∧ assignable t t' = true := by
+  rw [assignable_struct_iff_partial]
+  constructor
+  · intro h k t hkt
+    obtain ⟨t', hg, _, ha⟩ := h k t hkt
+    exact ⟨t', hg, ha⟩
+  · intro h k t hkt
+    obtain ⟨t', hg, ha⟩ := h k t hkt
+    exact ⟨t', hg, Martian.Types.dims_eq_of_assignable t t' ha (hm k t t' hkt hg), ha⟩
+
+example : mapCoercion (.arr tN) (.arr tN) = false ∧ mapCoercion (.base .float) (.base .int) = false ∧
+    mapCoercion (.base .map) (.tmap (.base .int)) = true := by decide
+
+/-! ### 7. composition (what C01 / C07 rely on) -/
+
+/-- A value that validates cleanly is filtered (to the same type) without any
+error – not even a soft one. -/
+theorem filter_ok_of_valid (t : Ty) (v : J) (h : valid t v = true) : (filter t v).2 = .ok :=
+  Martian.Types.filter_ok_of_valid t v h
+
+/-- Narrowing chain: for a value that is clean at the wider type `s`,
+filtering to `s` and then to the narrower `d` equals filtering to `d`
+directly.  Hypothesis `pureNarrow d s`: no `map`/`map<T>` destination takes
+the place of a struct/typed map (those destinations filter less than `s`
+did).  Both it and `valid s v` are needed: see the two witnesses below. -/
+theorem filter_narrow_chain (d s : Ty) (v : J) (hd : d.wf = true) (hs : s.wf = true)
+    (hv : valid s v = true) (ha : assignable d s = true) (hp : pureNarrow d s = true) :
+    (filter d (filter s v).1).1 = (filter d v).1 :=
+  filter_chain d hd s v hs hv ha hp
+
+/-- non-vacuity: struct narrowing through nested types with a coercion -/
+example :
+    let d : Ty := .struct [0x44] (.cons ka (.arr tA) (.cons kb (.tmap (.base .float)) .nil))
+    let s : Ty := .struct [0x53] (.cons kb (.tmap (.base .int)) (.cons ka (.arr tA) (.cons kx (.base .int) .nil)))
+    let v : J := .obj [(kx, .num (.int 1)), (ka, .arr [.obj [(ka, .num (.int 2)), (kx, .null)]]),
+                       (kb, .obj [(ka, .num (.int 3)), (kb, .null)])]
+    d.wf = true ∧ s.wf = true ∧ valid s v = true ∧
+      assignable d s = true ∧ pureNarrow d s = true := by decide
+
+/-- witness: without `pureNarrow` (`map ← struct A`) the chain equation fails:
+the struct filter drops `x`, the direct filter to `map` keeps it. -/
+theorem chain_fails_map_from_struct :
+    assignable (.base .map) tA = true ∧ pureNarrow (.base .map) tA = false ∧
+    valid tA (.obj [(ka, .num (.int 1)), (kx, .null)]) = true ∧
+    (filter (.base .map) (filter tA (.obj [(ka, .num (.int 1)), (kx, .null)])).1).1
+      = .obj [(ka, .num (.int 1))] ∧
+    (filter (.base .map) (.obj [(ka, .num (.int 1)), (kx, .null)])).1
+      = .obj [(ka, .num (.int 1)), (kx, .null)] :=
+  ⟨by decide, by decide, by decide, rfl, rfl⟩
+
+/-- witness: without `valid s v` (`float ← int`, value `1.0`) the int filter
+rewrites the literal, the float filter does not. -/
+theorem chain_fails_invalid_source :
+    valid (.base .int) (.num (.flt 10 (-1))) = false ∧
+    (filter (.base .float) (filter (.base .int) (.num (.flt 10 (-1)))).1).1 = .num (.int 1) ∧
+    (filter (.base .float) (.num (.flt 10 (-1)))).1 = .num (.flt 10 (-1)) :=
+  ⟨by decide, rfl, rfl⟩
+
+/-! ### 8. duplicate keys: objects are association LISTS
+
+Every theorem above holds for arbitrary association lists, duplicates
+included.  The real code decodes an object into a Go map before it looks at
+it, i.e. it sees `dedupLast kvs` (for every key its LAST member).
+* At struct-typed positions the model does exactly that (`getKey` is
+  last-wins): `valid_struct_last_wins`, `filter_struct_last_wins`.
+* At typed-map positions the model looks at every member of the list; the
+  real code at the members of `dedupLast kvs`.  The two agree on objects
+  without duplicated keys (`dedupLast_of_nodup`), and the correspondence is
+  run as  real(v) ≃ model(v with every object in last-wins normal form),
+  outputs compared up to that normal form.  `tmap_shadowed_member` is the
+  negative witness for the raw list (replayed on the real code). -/
+
+theorem valid_struct_last_wins (n : Bytes) (fs : Fields) (kvs : List (Bytes × J)) :
+    valid (.struct n fs) (.obj kvs) = valid (.struct n fs) (.obj (dedupLast kvs)) := by
+  simp [valid, check, checkFields_dedupLast]
+
+theorem filter_struct_last_wins (n : Bytes) (fs : Fields) (kvs : List (Bytes × J)) :
+    filter (.struct n fs) (.obj kvs) = filter (.struct n fs) (.obj (dedupLast kvs)) := by
+  simp [filter, filterFields_dedupLast]
+
+/-- the normal form has no duplicated key, keeps exactly the last members, and
+is a fixed point -/
+theorem dedupLast_spec (kvs : List (Bytes × J)) :
+    ((dedupLast kvs).map Prod.fst).Nodup ∧
+    (∀ k v, (k, v) ∈ dedupLast kvs ↔ getKey k kvs = some v) ∧
+    dedupLast (dedupLast kvs) = dedupLast kvs :=
+  ⟨keys_dedupLast_nodup kvs, fun _ _ => mem_dedupLast_iff,
+    dedupLast_of_nodup (keys_dedupLast_nodup kvs)⟩
+
+/-- struct positions: a shadowed (earlier) duplicate is never looked at –
+`{"a":"x","a":1}` is a clean `struct A(int a)`, and filtering keeps the last member. -/
+theorem struct_shadowed_member_ignored :
+    valid tA (.obj [(ka, .str kx), (ka, .num (.int 1))]) = true ∧
+    filter tA (.obj [(ka, .str kx), (ka, .num (.flt 10 (-1)))]) = (.obj [(ka, .num (.int 1))], .soft) :=
+  ⟨by decide, rfl⟩
+
+/-- typed-map positions, negative witness for the RAW list: the model rejects
+`{"a":"x","a":1}` as `map<int>` (it looks at the shadowed member) but accepts
+its last-wins normal form `{"a":1}` – which is what the real code validates
+(it answers ok; replayed from corpus/C17). -/
+theorem tmap_shadowed_member :
+    valid (.tmap (.base .int)) (.obj [(ka, .str kx), (ka, .num (.int 1))]) = false ∧
+    dedupLast [(ka, J.str kx), (ka, .num (.int 1))] = [(ka, .num (.int 1))] ∧
+    valid (.tmap (.base .int)) (.obj (dedupLast [(ka, .str kx), (ka, .num (.int 1))])) = true :=
+  ⟨by decide, rfl, by decide⟩
+
 end Props.C17
